@@ -9,7 +9,10 @@ CONSTANTS
   FixUnpad = TRUE
   FixProto = TRUE
   FixShardLens = TRUE
+  MaxSession = 3
+  RecordOnlyAccepted = TRUE
 INIT Init
 NEXT Next
-INVARIANTS Reconstructs CorruptHarmless NeverFails MalformedWireRejected BadPaddingRejected HonestAccepted CorruptRejected DuplicateRejected Pipeline PaddingOK ThresholdsOK
+INVARIANTS Reconstructs CorruptHarmless NeverFails MalformedWireRejected BadPaddingRejected HonestAccepted CorruptRejected DuplicateRejected Pipeline PaddingOK ThresholdsOK SessionJunkRejected ThresholdStaysReachable
+PROPERTIES RejectedLeavesValidatorUnchanged GenuineAcceptedIffNew
 CHECK_DEADLOCK FALSE
